@@ -870,6 +870,14 @@ Proof.
   apply (ufunc_method_unhandled_gen tables false _ cls u name m); try assumption; reflexivity.
 Qed.
 
+Example ufunc_method_unhandled_example :
+  assoc "add" numpy_names = Some (NpUfunc "add" false) /\
+  resolve tables false FUEL "GCXS" (Ufunc "add" "accumulate") = LfTypeError /\
+  resolve tables false FUEL "GCXS" (Ufunc "add" "reduceat") = LfTypeError /\
+  resolve tables false FUEL "GCXS" (Ufunc "add" "outer") = LfOuter "add" /\
+  resolve tables false FUEL "GCXS" (Ufunc "add" "reduce") = LfReduce "add".
+Proof. repeat split; vm_compute; reflexivity. Qed.
+
 (* the non-dispatched route into __array__ raises while SPARSE_AUTO_DENSIFY is unset *)
 Lemma array_coercion_raises_proof : forall cls, resolve tables false FUEL cls ArrayCoercion = LfRuntimeError.
 Proof. intros. reflexivity. Qed.
